@@ -127,7 +127,8 @@ def run(ctx) -> None:
                 simnode = hf.node
                 break
     SL = returned_name(simnode) if simnode is not None else None  # the list of simulated records
-    if RL is None or SL is None:
+    sim_is_generator = simnode is not None and any(isinstance(n, (ast.Yield, ast.YieldFrom)) for n in ast.walk(simnode))
+    if RL is None or (SL is None and not sim_is_generator):
         raise AnalysisError("read_events: returned list / simulated-events list not identified")
     found_sim = False
     for p in bp:
@@ -141,6 +142,9 @@ def run(ctx) -> None:
         if not walks:
             continue
         found_sim = True
+        # the contents arrive by one extend of the simulated records, or (a generator drained in place) by the walk loop itself
+        idx_walk = [i for i, e in enumerate(evs) if e.kind == "loop" and e.text.startswith("os.walk(") and any(y.kind == "call" and y.extra.get("func") == f"{RL}.append" for b_ in e.extra["paths"] for y in b_.flat())]
+        idx_ext = idx_ext or idx_walk
         ok = bool(idx_app) and bool(idx_ext) and min(idx_app) < min(idx_ext)
         ctx.check(ok, RT, "new directory: own record before its simulated contents", "the directory's own create is not appended before the simulated creates of its contents", rfi.loc)
         W = walks[0]
@@ -199,8 +203,8 @@ def run(ctx) -> None:
                 if d.get("filtered"):
                     good = False
                     why.append(f"{which}: entries are filtered before a record is made for them")
-                if len(d["recs"]) != 1 and not d["absorbed"]:
-                    good = False
+                if len(d["recs"]) != 1 and not d["absorbed"] and not (which == "files" and not d["recs"] and not d.get("comp")):
+                    good = False  # (a file entry without a record is judged below: allowed only when its parent has no watch)
                 for rec in d["recs"]:
                     a = ast.unparse(rec)
                     if "IN_CREATE" not in a or (("IN_ISDIR" in a) != (which == "dirs")):
@@ -228,10 +232,13 @@ def run(ctx) -> None:
                             elif a0 in lookups[:2] and d["conds"].get(f"{a0} is None") is not False:
                                 good = False
                                 why.append("files: a record is built although the parent's watch was not found (descriptor None)")
+                            elif a0 in lookups[2:] and d["conds"].get(a0[len("self._wd_for_path[") : -1] + " in self._wd_for_path") is not True:
+                                good = False
+                                why.append("files: the parent's watch is read by index without a membership test (KeyError for a parent that could not be watched)")
                     else:
                         good = False
-                if d["skipped"] and which == "files":
-                    if not any(k.startswith("self._wd_for_path.get(") and k.endswith(" is None") and v is True for k, v in d["own"].items()):
+                if (d["skipped"] or (not d["recs"] and not d["absorbed"] and not d.get("comp"))) and which == "files":
+                    if not any((k.startswith("self._wd_for_path.get(") and k.endswith(" is None") and v is True) or (k.endswith(" in self._wd_for_path") and v is False) for k, v in d["own"].items()):
                         good = False
                         why.append("files: an entry is skipped although its parent's watch exists")
             kinds[which] = good
@@ -254,7 +261,7 @@ def run(ctx) -> None:
     if "[i:j]=" in ops:
         ctx.unresolved.append(f"{RL} is also filled by slice assignment (positional insertion): whether kernel order is kept depends on index arithmetic, not decided")
     stage("reader: returned event list", set(ops) <= {"append", "extend", "[i:j]="} and bool(set(ops) & {"append", "extend"}), f"operations on {RL}: {ops}", rfi.loc, ops)
-    ops = list_ops(simnode, SL)
+    ops = list_ops(simnode, SL) if SL is not None else {"append": ["(records are yielded in walk order and appended by the consumer)"]}
     stage("reader: simulated events list", set(ops) <= {"append", "extend", "augassign"}, f"operations on the simulated list: {ops}", rfi.loc, ops)  # x += more extends x in place, at its end
     gf = P.find_method("InotifyBuffer", "_group_events")
     GL = returned_name(gf.node)
@@ -282,6 +289,10 @@ def run(ctx) -> None:
 
     qpaths, qci = get_paths(P)
     revalidate_head(ctx, RO, qpaths, qci)
+    from .c17 import deque_unbounded
+
+    okb, whyb, locb = deque_unbounded(P)
+    ctx.check(okb, RO, "delay queue: no element is dropped for want of room (unbounded deque)", whyb, locb)
     # stages decided by other properties' rules, shared here because a violation of any of them is a dropped / duplicated /
     # reordered event of this pipeline: the grouping places every record once, the hand-over puts every element once (C08), the
     # event queue skips nothing but a pending duplicate (C16)
